@@ -18,6 +18,8 @@ type MemDevice struct {
 	FailWrite func(off int64, n int) error
 	// CorruptReads > 0 makes that many upcoming ReadAt calls return data with the first byte flipped.
 	CorruptReads int
+	// CorruptFill makes a corrupted read return 0xff bytes throughout instead of one flipped byte.
+	CorruptFill bool
 	// LastReadOff is the offset of the most recent ReadAt.
 	LastReadOff int64
 	// Reads counts ReadAt calls; FirstCorruptOff is the offset of the most recent read that was corrupted.
@@ -27,6 +29,9 @@ type MemDevice struct {
 	OnWrite func(off int64, p []byte)
 	// OnRead is called (without the lock) before a read is served.
 	OnRead func(off int64, n int)
+	// OnReadDone is called (without the lock) after a read was served, before ReadAt returns: whatever it does
+	// overtakes the caller between its device read and its use of the data.
+	OnReadDone func(off int64, n int)
 	// FailRead, when set, is consulted before every read.
 	FailRead func(off int64, n int) error
 }
@@ -43,6 +48,14 @@ func (d *MemDevice) ReadAt(p []byte, off int64) (int, error) {
 	if h := d.OnRead; h != nil {
 		h(off, len(p))
 	}
+	n, err := d.readAt(p, off)
+	if h := d.OnReadDone; h != nil && err == nil {
+		h(off, n)
+	}
+	return n, err
+}
+
+func (d *MemDevice) readAt(p []byte, off int64) (int, error) {
 	d.mu.Lock()
 	defer d.mu.Unlock()
 	if f := d.FailRead; f != nil {
@@ -60,6 +73,11 @@ func (d *MemDevice) ReadAt(p []byte, off int64) (int, error) {
 		d.FirstCorruptOff = off
 		d.CorruptReads--
 		p[0] ^= 0xff
+		if d.CorruptFill {
+			for i := 0; i < n; i++ {
+				p[i] = 0xff
+			}
+		}
 	}
 	if n < len(p) {
 		return n, io.EOF
